@@ -26,6 +26,10 @@ type c04CloseMidCase struct {
 	Ping   bool   `json:"ping_before_close"`
 	After  string `json:"after_close"` // eof | continuation+eof | error
 	API    string `json:"api"`         // netconn | netconn-readall | reader | read | wsjson
+	// Prop "C06": the same stream judged by C06's clause "a received Close frame is
+	// echoed with the same code and reported the same way": the read that meets the
+	// Close frame fails with an error whose CloseStatus is the peer's code.
+	Prop string `json:"prop,omitempty"`
 }
 
 func c04CloseMidOne(c *fw.Ctx, cs c04CloseMidCase) {
@@ -136,6 +140,24 @@ func c04CloseMidOne(c *fw.Ctx, cs c04CloseMidCase) {
 		return
 	}
 	c.OutcomeStr(fmt.Sprintf("closemid %+v clean=%v got=%d", cs, clean, len(got)))
+	if cs.Prop == "C06" {
+		if err != nil && websocket.CloseStatus(err) != websocket.StatusCode(cs.Code) {
+			c.Violate("C06/received-close-not-reported/inside-message/"+cs.API, fmt.Sprintf("%s: the peer's Close frame (code %d) arrived between the fragments of a message; the read that met it failed with %q, whose CloseStatus is %d", desc, cs.Code, err, websocket.CloseStatus(err)), cs)
+			return
+		}
+		echo := false
+		fs, _ := frame.ParseAll(t.Log())
+		for _, f := range fs {
+			if f.Opcode == frame.OpClose {
+				echo = len(f.Payload) >= 2 && int(f.Payload[0])<<8|int(f.Payload[1]) == cs.Code
+				break
+			}
+		}
+		if !echo {
+			c.Violate("C06/received-close-not-echoed/inside-message/"+cs.API, fmt.Sprintf("%s: the peer's Close frame (code %d) arrived between the fragments of a message; the first Close frame on the wire does not carry that code (wire %x)", desc, cs.Code, t.Log()), cs)
+		}
+		return
+	}
 	if clean {
 		c.Violate("C04/clean-end-after-close-inside-message/"+cs.API, fmt.Sprintf("%s: the peer's Close frame (code %d) arrived after the first fragment (%d of %d bytes) of a message whose final frame %s; %s nevertheless reported a clean end after %d bytes (%q)", desc, cs.Code, cs.Frag, len(doc), map[bool]string{true: "arrived only behind the Close frame", false: "never arrived"}[cs.After == "continuation+eof"], cs.API, len(got), got), cs)
 		return
@@ -166,7 +188,7 @@ func c04CloseMidCases() []c04CloseMidCase {
 					for _, ping := range []bool{false, true} {
 						for _, after := range []string{"eof", "continuation+eof", "error"} {
 							for _, api := range []string{"netconn", "netconn-readall", "reader", "read", "wsjson"} {
-								out = append(out, c04CloseMidCase{client, code, pre, frag, ping, after, api})
+								out = append(out, c04CloseMidCase{Client: client, Code: code, Pre: pre, Frag: frag, Ping: ping, After: after, API: api})
 							}
 						}
 					}
@@ -178,6 +200,33 @@ func c04CloseMidCases() []c04CloseMidCase {
 }
 
 func init() {
+	fw.Register(fw.Part{
+		Prop: "C06", Name: "closemid",
+		Units: func(tier string) []fw.Unit {
+			return []fw.Unit{{ID: "close-between-fragments", Run: func(c *fw.Ctx) {
+				n := 0
+				for _, cs := range c04CloseMidCases() {
+					if cs.API != "reader" && cs.API != "read" {
+						continue
+					}
+					cs.Prop = "C06"
+					c04CloseMidOne(c, cs)
+					n++
+				}
+				c.AddStates(int64(n))
+				c.AddTransitions(int64(n))
+				c.Bound("closemid_cases", n)
+			}}}
+		},
+		Replay: func(c *fw.Ctx, data json.RawMessage) {
+			var cs c04CloseMidCase
+			if json.Unmarshal(data, &cs) != nil {
+				c.EngineError("bad replay data")
+				return
+			}
+			c04CloseMidOne(c, cs)
+		},
+	})
 	fw.Register(fw.Part{
 		Prop: "C04", Name: "closemid",
 		Units: func(tier string) []fw.Unit {
